@@ -13,6 +13,8 @@
 -/
 import Batchie.Model.Proto
 import Batchie.Model.Predict
+import Batchie.Model.Persist
+import Batchie.Model.ScreenIO
 
 namespace Batchie.Metrics
 open Batchie.Proto
@@ -129,6 +131,45 @@ def meanPredictionsDef (E K : Nat) (preds : List (List α)) : List α :=
 def calculateMse (avg obs : List α) : α := mean (List.zipWith (fun p o => sq (p - o)) avg obs)
 
 end evaluation
+
+/-! ### the evaluation file (`ModelEvaluation.save_h5 / load_h5`, `models/main.py:119-142`)
+
+  Three numeric datasets are handed to h5py as they are (float64 / int64: modelled as the identity,
+  like every numeric dataset of `Model/Persist.lean`); `sample_names` goes through
+  `np.char.encode` -> an `S<w>` table -> `np.char.decode(..., "utf-8")`, i.e. the string-table codec of
+  `Model/Persist.lean` (UTF-8, zero padding to the common width, trailing zero bytes stripped on
+  reading; an EMPTY table comes back as float64 and `np.char.decode` raises TypeError).  `load_h5`
+  passes the four arrays to the constructor, whose shape checks run again. -/
+
+open Batchie.Screen (Name) in
+/-- the four arrays of a `ModelEvaluation`; `K` is `predictions.shape[1]` -/
+structure EvalRec (α : Type) where
+  K : Nat
+  preds : List (List α)
+  obs : List α
+  chains : List Int
+  names : List Batchie.Screen.Name
+
+/-- the four datasets of the file -/
+structure EvalFile (α : Type) where
+  K : Nat
+  preds : List (List α)
+  obs : List α
+  chains : List Int
+  names : Batchie.Persist.STable
+
+/-- the constructor's shape checks -/
+def EvalRec.shapeOk {α : Type} (r : EvalRec α) : Bool :=
+  r.preds.length == r.obs.length && r.names.length == r.obs.length && r.chains.length == r.K
+    && r.preds.all (fun row => row.length == r.K)
+
+def saveEval {α : Type} (r : EvalRec α) : EvalFile α :=
+  { K := r.K, preds := r.preds, obs := r.obs, chains := r.chains, names := Batchie.Persist.encodeTable r.names }
+
+def loadEval {α : Type} (f : EvalFile α) : Except Err (EvalRec α) := do
+  let names ← Batchie.Persist.decodeTable f.names
+  let r : EvalRec α := { K := f.K, preds := f.preds, obs := f.obs, chains := f.chains, names := names }
+  if r.shapeOk then .ok r else .error .valueError
 
 /-! ### single-agent effects (`data.py:148-228`) -/
 
@@ -395,6 +436,13 @@ def handle (toks : List String) : Option String :=
     match fullSpaceGuard (← parseNat? a) (← parseNat? n) (← parseIntList? sm) (← parseInt? sid) with
     | .ok _ => pure "ok"
     | .error e => pure (showErr e)
+  | ["c20.reload", k, p, o, c, nm] => do
+    let names ← Batchie.ScreenIO.parseList? Batchie.ScreenIO.parseName? "," nm
+    let r : EvalRec Float := { K := ← parseNat? k, preds := ← parseMat? p, obs := ← parseVec? o, chains := ← parseIntList? c, names := names }
+    match loadEval (saveEval r) with
+    | .error e => pure (showErr e)
+    | .ok r' => pure ("ok " ++ showMat r'.preds ++ " " ++ showVec r'.obs ++ " " ++ showIntList r'.chains ++ " "
+        ++ Batchie.ScreenIO.showList Batchie.ScreenIO.showName "," r'.names)
   | ["c20.corrp", p] => do
     let P ← parseMat? p
     pure ("ok " ++ showMat (corrOfPredictions P))
